@@ -168,11 +168,12 @@ def _install():
                         # it positive (known finding F-LSQ-BOUND-STICKING)
                         raw_ = np.asarray(rec["xres"], float)
                         stuck = bool(np.any((np.abs(raw_) <= 1e-9) & (zref > 1e-6))) if raw_.shape == zref.shape else False
-                        # ill-scaled systems (right-hand sides larger than the number of interfaces: dimensional velocities of a drifting tissue with
-                        # a small time unit): Levenberg-Marquardt stops at a relative objective gap of a few 1e-6 with tensions off
-                        # by up to 0.2 (known finding F-LSQ-ILL-SCALED); anything worse than 1e-4 is something else
-                        ill_ = rec["path"] == "lsq" and np.abs(raug[:-1]).max() > n and gap <= 1e-4 * objref
-                        mon.fail("F-LSQ-BOUND-STICKING" if (stuck and rec["path"] == "lsq") else ("F-LSQ-ILL-SCALED" if ill_ else "not-optimal"), "reported tensions (+ best multiplier) minimise the squared residual over "
+                        # Levenberg-Marquardt (lmfit, default tolerances) stops early now and then: regularly on ill-scaled systems
+                        # (dimensional velocities of a drifting tissue with a small time unit: relative objective gap of a few
+                        # 1e-6, tensions off by up to 0.2), rarely on ordinary ones (3.6e-5 once in ~1400 lsq systems): known
+                        # finding F-LSQ-EARLY-STOP; a relative gap above 1e-4 is something else
+                        ill_ = rec["path"] == "lsq" and gap <= 1e-4 * objref
+                        mon.fail("F-LSQ-BOUND-STICKING" if (stuck and rec["path"] == "lsq") else ("F-LSQ-EARLY-STOP" if ill_ else "not-optimal"), "reported tensions (+ best multiplier) minimise the squared residual over "
                                  "non-negative candidates", gap=gap, obj=obj, objref=objref, path=rec["path"], method=method)
                 else:
                     tau = 1e-7 if method != "lsq_linear" else 1e-5
@@ -206,8 +207,8 @@ def _install():
                         raw_ = np.asarray(rec["xres"], float)
                         stuck = method == "lsq" and rec["path"] == "lsq" and raw_.shape == zref.shape and \
                             bool(np.any((np.abs(raw_) <= 1e-9) & (zref > 1e-6)))
-                        ill_ = method == "lsq" and rec["path"] == "lsq" and np.abs(raug[:-1]).max() > n and (obj - objref) <= 1e-4 * objref
-                        mon.fail("F-LSQ-BOUND-STICKING" if stuck else ("F-LSQ-ILL-SCALED" if ill_ else "not-the-minimiser"), "equal to the unique minimiser within solver tolerance", diff=d,
+                        ill_ = method == "lsq" and rec["path"] == "lsq" and (obj - objref) <= 1e-4 * objref
+                        mon.fail("F-LSQ-BOUND-STICKING" if stuck else ("F-LSQ-EARLY-STOP" if ill_ else "not-the-minimiser"), "equal to the unique minimiser within solver tolerance", diff=d,
                                  tol=tol, path=rec["path"], method=method)
                     else:
                         c["worst"] = max(c.get("worst", 0), d / tol)
